@@ -222,7 +222,7 @@ pub fn main(tier: Tier) -> i32 {
                                 for &d in arr.iter() {
                                     match observe(&k, d) {
                                         Some(o) => obs.push((d, "final", o)),
-                                        None => return Err(format!("channel {} missing at the end", d)),
+                                        None => return Err(format!("channel-not-created: channel {} was asked for and does not exist at the end", d)),
                                     }
                                 }
                                 let seeds_c: Vec<(u64, [u8; 32])> = arr.iter().map(|&d| (d, commitment_seed(&k, d).unwrap())).collect();
@@ -232,7 +232,10 @@ pub fn main(tier: Tier) -> i32 {
                             let (obs, seeds_c) = match res {
                                 Ok(Ok(x)) => x,
                                 Ok(Err(e)) => {
-                                    run.violation("C18:machinery", &e, desc.clone());
+                                    // a channel that was asked for and is not there got no keys
+                                    // of its own: a violation; anything else is the harness's
+                                    let key = if e.starts_with("channel-not-created") { "C18:channel-not-created" } else { "C18:machinery" };
+                                    run.violation(key, &e, desc.clone());
                                     continue;
                                 }
                                 Err(p) => {
